@@ -245,8 +245,10 @@ class PipeRule:
         tr = strip_crate(ci.trait)
         if tr == 'service::Autocomplete' and name == 'autocomplete':
             ty = ci.gargs[0] if ci.gargs else {}
-            self.members.append(F.norm_path(ty.get('path')) if ty.get('k') == 'adt' else ty.get('s'))
-            return [(w, UNIT)]
+            m = F.norm_path(ty.get('path')) if ty.get('k') == 'adt' else ty.get('s')
+            self.members.append(m)
+            # also per path: a member skipped on some path (early return) must not go unnoticed
+            return [(w.with_st((w.st if isinstance(w.st, tuple) else ()) + (('member', m),)), UNIT)]
         if p.endswith('::merge_autocompletion'):
             self.merges.append(args[1])
             return [(w, UNIT)]
@@ -346,22 +348,28 @@ def run(ctx, res):
             rule = PipeRule()
             I = Interp([crate, lib], rule)
             req = ('adt', 'autocomplete::Request', 0, (('sym', 'request'),))
-            I.run(f, [req, TOP], None, {})
+            exits_ = I.run(f, [req, TOP], None, {})
             orc = oracle.get(tk) if cname == 'decls' else None
             if rule.members or (orc and orc.get('kind') == 'group'):
-                # group impl
-                if orc:
-                    want = sorted(m['type'] for m in orc['members'] if not m['hidden'])
-                    got = sorted(rule.members)
-                    good = got == want
-                    res.oblige("A2|%s|%s" % (cname, tk), good, sample="group %s -> members %s" % (tk, got),
-                               violation=None if good else dict(
-                                   rule='C11.group-members', key="C11|group-members|%s" % tk,
-                                   msg="derived Autocomplete for group %s consults %s, the declaration's visible members are %s"
-                                       % (tk, got, want)))
-                else:
-                    good = len(set(rule.members)) == len(rule.members)
-                    res.oblige("A2|%s|%s" % (cname, tk), good)
+                # group impl: on *every* path each visible member is consulted exactly once (in any order)
+                paths = [sorted(e[1] for e in (w_.st if isinstance(w_.st, tuple) else ()) if e[0] == 'member') for w_, _ in exits_]
+                if not paths:
+                    raise KeyError("derived Autocomplete for group %s has no exit" % tk)
+                for got in paths:
+                    if orc:
+                        want = sorted(m['type'] for m in orc['members'] if not m['hidden'])
+                        good = got == want
+                        res.oblige("A2|%s|%s|%s" % (cname, tk, got), good, sample="group %s -> members %s" % (tk, got),
+                                   violation=None if good else dict(
+                                       rule='C11.group-members', key="C11|group-members|%s" % tk,
+                                       msg="derived Autocomplete for group %s has a path that consults %s, the declaration's visible "
+                                           "members are %s (a member skipped on some path loses its candidates)" % (tk, got, want)))
+                    else:
+                        good = len(set(got)) == len(got) and got == sorted(set(rule.members))
+                        res.oblige("A2|%s|%s|%s" % (cname, tk, got), good, violation=None if good else dict(
+                            rule='C11.group-members', key="C11|group-members|%s" % tk,
+                            msg="derived Autocomplete for group %s has a path that consults %s of the members %s" % (
+                                tk, got, sorted(set(rule.members)))))
                 continue
             if not (orc and orc.get('skip_autocomplete')):
                 if check_concrete(res, I.crates, f, tk, orc):
@@ -420,12 +428,12 @@ def check_cli(ctx, res, lib):
     """A3: the Tab arm and the built-in `help` candidate."""
     ses, words, I = session.process_byte_words(lib)
     for word, status in words.get('Tab', ()):
-        muts = [l for l in word if l.startswith('E.') and l.split(':')[0] not in ('E.cursor', 'E.len', 'E.text', 'E.text_range')]
+        muts = [l for l in word if l.startswith('E.') and l.split(':')[0].split('(')[0] not in ('E.cursor', 'E.len', 'E.text', 'E.text_range')]
         good = muts == ['E.autocompletion']
         res.oblige("A3|Tab|%s|%s" % (status, " ".join(word)), good, violation=None if good else dict(
             rule='C11.tab', key="C11|tab", msg="Tab does not map to exactly one Editor::autocompletion: %s" % " ".join(word)))
         if status == 'Ok' and any(l.startswith('W:') for l in word):
-            good = 'E.text_range' in word and 'W:line_range' in word
+            good = any(l.startswith('E.text_range(cursor#') for l in word) and 'W:line_range' in word
             res.oblige("A3|Tab-echo|%s" % " ".join(word), good, violation=None if good else dict(
                 rule='C11.tab-echo', key="C11|tab-echo", msg="Tab echoes something else than the completed range: %s" % " ".join(word)))
     # the closure handed to Editor::autocompletion
